@@ -56,6 +56,49 @@ def spec(lines, skip):
 STRUCTS = ['A3', 'A4D2', 'D1A10O1', 'K4', 'A1A2', 'Y1X1', 'O2A3D4', 'A12', 'D3']
 
 
+def skip_case(a, grammar_io):
+    """C14.skip_case.post on the rulesets shipped with the repository: with skip_case every C<n> list is
+    [{'values': ['L'*n], 'prob': 1.0}] and every other key of the grammar, the base structures and the
+    ruleset info are identical to the default load."""
+    fail = None
+    cases = 0
+    samples = []
+    rules_dir = os.path.join(a.repo, 'Rules')
+    for rule in sorted(os.listdir(rules_dir)):
+        base = os.path.join(rules_dir, rule)
+        if not os.path.isfile(os.path.join(base, 'config.ini')):
+            continue
+        for skip_brute in (False, True):
+            try:
+                g0, b0, i0 = grammar_io.load_grammar(rule, base, '4.7', skip_brute, False, 'Grammar')
+                g1, b1, i1 = grammar_io.load_grammar(rule, base, '4.7', skip_brute, True, 'Grammar')
+            except Exception as ex:
+                continue     # a shipped ruleset this version cannot load at all is not a C14 matter
+            cases += 1
+            why = None
+            if sorted(g0) != sorted(g1):
+                why = 'key sets differ: %r' % sorted(set(g0) ^ set(g1))[:5]
+            elif b0 != b1 or i0 != i1:
+                why = 'base structures or ruleset info differ'
+            else:
+                for k in g0:
+                    if k[0] == 'C' and k[1:].isdigit():
+                        n = int(k[1:])
+                        if g1[k] != [{'values': ['L' * n], 'prob': 1.0}]:
+                            why = 'mask list %s is %r' % (k, g1[k][:2])
+                    elif g0[k] != g1[k]:
+                        why = 'terminal list %s changed' % k
+            samples.append({'ruleset': rule, 'skip_brute': skip_brute, 'keys': len(g0)})
+            if why:
+                fail = {'function': '_load_terminals', 'ruleset': rule, 'skip_brute': skip_brute, 'why': why}
+                break
+        if fail:
+            break
+    print(json.dumps({'failing_input': fail, 'failures': [fail] if fail else [], 'cases': cases, 'distinct': cases,
+                      'rule': 'every ruleset under Rules/ x skip_brute in {off,on}: load with and without skip_case and compare',
+                      'samples': samples[:3]}))
+
+
 def main():
     ap = argparse.ArgumentParser()
     ap.add_argument('--repo', default='/repo')
@@ -66,6 +109,8 @@ def main():
     sys.path.insert(0, a.repo)
     from lib_guesser import grammar_io
     rng = random.Random(a.seed)
+    if a.fn == 'skip_case':
+        return skip_case(a, grammar_io)
     d = tempfile.mkdtemp(prefix='pcfg_loader_')
     cases = 0
     distinct = set()
